@@ -1,5 +1,6 @@
 """C17 -- grid coordinate maps: monotone bijections, Jacobians, centre, rescaling == new grid."""
 import json
+import os
 import math
 import subprocess
 from fractions import Fraction
@@ -654,6 +655,139 @@ def diff_snap(a, b):
 
 
 # ---------------------------------------------------------------------------------------
+# consumers: code that READS a grid must leave it as it was
+
+def _eom_stub(g):
+    from types import SimpleNamespace
+    from WallGo.equationOfMotion import EOM
+    eom = EOM.__new__(EOM)
+    eom.grid, eom.meanFreePathScale, eom.includeOffEq = g, 1.0, True
+    eom.particles = []
+    eom.nbrFields = 1
+    eom.thermo = SimpleNamespace(effectivePotential=SimpleNamespace(
+        evaluate=lambda f, T: np.sum(np.asarray(f) ** 2 * (np.asarray(f) - 1.0) ** 2, axis=-1)
+        - 1e-3 * np.sum(np.asarray(f), axis=-1)))
+    return eom
+
+
+def consumer_action(g):
+    """EOM.action, the objective the wall solver minimises (reads xiValues through
+    wallProfile and the Jacobian getter through Polynomial.integrate)"""
+    from WallGo.containers import WallParams
+    from WallGo.fields import Fields
+    eom = _eom_stub(g)
+    w = abs(float(getattr(g, "wallThickness", g.positionFalloff)))
+    wp = WallParams(widths=np.array([w]), offsets=np.array([0.0]))
+    T = np.full(int(g.M) - 1, 100.0)
+    a1 = eom.action(wp, Fields([1.0]), Fields([0.0]), T, None)
+    a2 = eom.action(wp, Fields([1.0]), Fields([0.0]), T, None)
+    if not (a1 == a2 or (np.isnan(a1) and np.isnan(a2))):
+        raise AssertionError("EOM.action is not repeatable on the same input: %r then %r"
+                             % (a1, a2))
+
+
+def consumer_wallProfile(g):
+    """EOM.wallProfile on the grid's own position arrays (attribute and getter), with walls much
+    thinner than the tails, and on the arrays with endpoints"""
+    from WallGo.containers import WallParams
+    from WallGo.fields import Fields
+    eom = _eom_stub(g)
+    w = abs(float(getattr(g, "wallThickness", g.positionFalloff)))
+    with np.errstate(all="ignore"):
+        for width in (w, w / 400.0):
+            wp = WallParams(widths=np.array([width, 2 * width]), offsets=np.array([0.0, 0.3]))
+            lo, hi = Fields([1.0, 2.0]), Fields([0.0, 0.0])
+            eom.wallProfile(g.xiValues, lo, hi, wp)
+            eom.wallProfile(g.getCoordinates()[0], lo, hi, wp)
+            eom.wallProfile(g.getCoordinates(endpoints=True)[0], lo, hi, wp)
+
+
+def consumer_polynomial(g):
+    """Polynomial: integration with the Jacobian getters as weights, derivatives, evaluation
+    and basis changes in the three directions"""
+    from WallGo.polynomial import Polynomial
+    M, N = int(g.M), int(g.N)
+    d = g.getCompactificationDerivatives()
+    cc = g.getCompactCoordinates()
+    for k, (direction, n) in enumerate((("z", M - 1), ("pz", N - 1), ("pp", N - 1))):
+        vals = np.cos(3 * np.asarray(cc[k])) + 2.0
+        pl = Polynomial(vals, g, "Cardinal", direction, False)
+        pl.integrate(weight=d[k])
+        pl.integrate(0, d[k])
+        pl.derivative(0)
+        pl.evaluate(np.array([[0.1, -0.3]]))
+        q = Polynomial(vals.copy(), g, "Cardinal", direction, False)
+        q.changeBasis("Chebyshev")
+        q.changeBasis("Cardinal")
+        (pl * d[k]).integrate()
+        pl.matrix("Cardinal", direction)
+        pl.derivMatrix("Cardinal", direction)
+
+
+def consumer_boltzmann(g):
+    """BoltzmannSolver on the grid: linear system and moments (small grids only)"""
+    if int(g.M) > 12 or int(g.N) > 7 or BOLTZ["left"] <= 0:
+        return
+    BOLTZ["left"] -= 1
+    import random as _r
+    from props import C12
+    case = C12.rand_case(_r.Random(5), int(g.M), int(g.N), 1, "all")
+    ps = C12.make_particles(case["stats"], case["couplings"], 1)
+    coll, _ = C12.make_collision(g, ps, case["cseed"], case["cscale"], case["coffdiag"])
+    bg = C12.make_background(g, case)
+    with np.errstate(all="ignore"):
+        sv = C12.make_solver(g, ps, bg, coll, "Cardinal", "Chebyshev")
+        sv.getDeltas()
+
+
+CONSUMERS = dict(action=consumer_action, wallProfile=consumer_wallProfile,
+                 polynomial=consumer_polynomial, boltzmann=consumer_boltzmann)
+CONSUMER_SKIPPED = {}
+BOLTZ = dict(left=3)      # the Boltzmann consumer costs seconds: a few runs per check
+
+
+def use_grid(g, which, three):
+    """run one consumer on g with its nine arrays write-protected; returns failures"""
+    import traceback
+    fails = []
+    before = snapshot(g, three)
+    arrs = [getattr(g, a) for a in ARR]
+    flags = [a.flags.writeable for a in arrs]
+    for a in arrs:
+        a.setflags(write=False)
+    try:
+        CONSUMERS[which](g)
+    except ValueError as ex:
+        if "read-only" in str(ex):
+            tb = traceback.extract_tb(ex.__traceback__)
+            where = [f for f in tb if "/WallGo/" in f.filename]
+            loc = where[-1] if where else tb[-1]
+            fails.append(("consumer-writes-grid-array:" + which,
+                          "%s writes IN PLACE into an array of the grid (the getters hand out "
+                          "the cached arrays): %s:%d `%s`" % (
+                              which, os.path.basename(loc.filename), loc.lineno, loc.line)))
+        else:
+            fails.append(("consumer-raises:%s:ValueError" % which, "%s raised %r" % (which, ex)))
+    except ImportError as ex:
+        CONSUMER_SKIPPED[which] = repr(ex)
+    except AssertionError as ex:
+        fails.append(("consumer-not-repeatable:" + which, str(ex)))
+    except Exception as ex:   # noqa: BLE001
+        fails.append(("consumer-raises:%s:%s" % (which, type(ex).__name__),
+                      "%s raised %r" % (which, ex)))
+    finally:
+        for a, f in zip(arrs, flags):
+            try:
+                a.setflags(write=f)
+            except ValueError:
+                pass
+    for nm in diff_snap(snapshot(g, three), before):
+        fails.append(("consumer-changes-grid:%s:%s" % (which, nm),
+                      "after %s (which only reads the grid) %s has changed" % (which, nm)))
+    return fails
+
+
+# ---------------------------------------------------------------------------------------
 # histories on one object
 
 def tonum(x, numtype):
@@ -720,6 +854,8 @@ def exec_op(h, o):
         eom._updateGrid(WallParams(widths=np.array([float(Fraction(x)) for x in o[2]]),
                                    offsets=np.array([float(Fraction(x)) for x in o[3]])),
                         float(Fraction(o[1])))
+    elif kind == "use":
+        h["use_fails"] = use_grid(g, o[1], three)
     elif kind == "bad":
         # a call that violates one assertion of _updateParameters; the caller catches the error
         which = o[1]
@@ -767,6 +903,8 @@ def judge(h, status, before, label):
     """failures (key, what) of the object after one op"""
     g, three = h["g"], h["three"]
     col = Collect()
+    for key, what in h.pop("use_fails", []):
+        col(None, what, None, key)
     if status == "accepted-bad":
         col(None, "a call violating an assertion of _updateParameters was accepted", None,
             "inadmissible-call-accepted")
@@ -893,6 +1031,8 @@ def rand_history(rng, three):
             ops.append(["eom", v, widths, offs])
             if nf > 1 and rng.random() < 0.6:     # same thickness and tails, centre moves
                 ops.append(["eom", v, widths, [-x for x in offs]])
+    for _ in range(rng.randint(1, 2)):      # code that only reads the grid, somewhere in between
+        ops.insert(rng.randint(0, len(ops)), ["use", rng.choice(sorted(CONSUMERS))])
     mfp = dy(rng, 16, 31, -9, 3)
     return dict(three=three, M=M, N=N, spacing=spacing, numtype=numtype, defaults=defaults,
                 init=jp(init), ops=jops(ops), mfp=str(mfp), inc=rng.random() < 0.8)
@@ -1126,6 +1266,7 @@ def run(ctx):
             ctx.broken.append("harness: certified evaluation stage raised %r" % ex)
 
     # --- (4) the property on the implementation -----------------------------------------
+    BOLTZ["left"] = ctx.n(3, 12)
     doctored_grids_fail(ctx)
     replay_witnesses(ctx, once)
     worst_rt = 0.0
@@ -1184,6 +1325,12 @@ def run(ctx):
         check_maps(ctx, once, g, case, "three-scale", True)
         getters_vs_maps(ctx, once, g, case, "three-scale", True)
         check_nodes(ctx, once, g, case, "three-scale", True)
+        for which in sorted(CONSUMERS):
+            ctx.count("consumer_" + which)
+            for key, what in use_grid(g, which, True):
+                once(ctx, "grid made by buildGrid/_updateGrid: " + what,
+                     dict(kind="history", three=True, M=int(g.M), N=int(g.N), spacing=g.spacing,
+                          init=jp(p), ops=[["use", which]]), key)
         for nm in diff_snap(snapshot(g, True), snapshot(fresh(g, True), True)):
             if nm != "positionFalloff":
                 once(ctx, "a grid made by buildGrid/_updateGrid differs in %s from a new grid "
@@ -1191,6 +1338,9 @@ def run(ctx):
                      "rescale-vs-new:" + nm)
     check_histories(ctx, once, rng, True, ctx.n(120, 1200))
     check_histories(ctx, once, rng, False, ctx.n(40, 300))
+    for which, why in CONSUMER_SKIPPED.items():
+        ctx.log("consumer %s could not be run (%s)" % (which, why))
+        ctx.broken.append("harness: consumer %s could not be imported (%s)" % (which, why))
     once.summary(ctx)
 
     ctx.cov["rule"] = (
